@@ -229,6 +229,8 @@ def run_case(case, cl=None):
         if err is not None:
             raise Violation(f"report #{i} {line!r} stored a device error: {err!r}")
         latest.update(truth)
+        if case.get("late") and i < len(case["reports"]) - 1:
+            continue        # readings are only asked for after the last report
         for letter in "XYZEABCFSTPR":
             exp = latest.get(letter)
             for name in (letter, letter.lower()):
@@ -363,6 +365,18 @@ def run_shard(ctx):
 
     run_hypothesis(ctx, st.fixed_dictionaries(
         {"reports": st.lists(report_strategy(), min_size=1, max_size=10)}), body, n)
+
+    # long histories (70..110 reports) read only once, after the last report:
+    # nothing may be dropped or parsed out of order on the way
+    def body_late(case):
+        cl = run_case(case, set())
+        cl.add("read_only_after_the_last_report")
+        ctx.case(case, nontrivial=True, classes=sorted(cl), steps=len(case["reports"]))
+
+    run_hypothesis(ctx, st.fixed_dictionaries(
+        {"late": st.just(True),
+         "reports": st.lists(report_strategy(), min_size=70, max_size=110)}), body_late,
+        25 if ctx.tier == "quick" else 800, sub="late")
 
     # the same histories sent by a simulated device over a real connection
     def body_t(case):
